@@ -570,6 +570,12 @@ FIXED_HISTORIES = [
        {"op": "GetBegin", "c": 0, "tok": 2, "t": 0, "name": "default", "optional": True},
        {"op": "GetEnd", "c": 0, "tok": 0}, {"op": "GetEnd", "c": 0, "tok": 1}, {"op": "GetEnd", "c": 0, "tok": 2},
        {"op": "GetNowait", "c": 0, "t": 1, "name": "default", "optional": False}),
+    # every pair of the factory is taken while it is running: nothing is registered, nothing announced
+    _h(_N, _E, {"op": "AddFactory", "c": 0, "f": 0, "kind": "FAsyncSusp", "name": "y_2", "types": [2, 3], "desc": 1},
+       {"op": "GetBegin", "c": 0, "tok": 0, "t": 3, "name": "y_2", "optional": False},
+       {"op": "AddResource", "c": 0, "v": 1, "vty": 2, "name": "y_2", "types": [2, 3], "desc": None, "cb": None},
+       {"op": "GetEnd", "c": 0, "tok": 0},
+       {"op": "GetNowait", "c": 0, "t": 2, "name": "y_2", "optional": False}),
     # F14: a resource added under the requested pair while its factory is running
     _h(_N, _E, {"op": "AddFactory", "c": 0, "f": 0, "kind": "FAsyncSusp", "name": "default", "types": [0, 1], "desc": None},
        {"op": "GetBegin", "c": 0, "tok": 0, "t": 0, "name": "default", "optional": False},
